@@ -33,7 +33,7 @@ def budget(tier):
 
 def floor(tier):
     return dict(min_conclusive=400 if tier == "quick" else 6000, min_nontrivial=300 if tier == "quick" else 4000,
-                classes=["finite", "rejected", "domain"] + PROCS + cards.SCHEMES, min_compared=400)  # fmt: skip
+                classes=["finite", "rejected", "domain", "extreme-kinematics"] + PROCS + cards.SCHEMES, min_compared=400)  # fmt: skip
 
 
 def cases(tier, rng):
@@ -59,7 +59,12 @@ def cases(tier, rng):
             ob["NCPositivityCharge"] = cards.pick(rng, ["all", "d", "u", "s", "c", "b", "t"])
         x = float(cards.pick(rng, [cards.logu(rng, 2e-3, 0.1), float(rng.uniform(0.1, 0.8)), 0.05]))
         q2 = cards.logu(rng, 1.5, 3e3)
-        out.append(dict(id=f"c16-{n}", mode="lattice", kind=kind, heavy=heavy, theory=th, obs=ob, point=dict(x=x, Q2=q2, y=float(rng.uniform(0.05, 0.95))), timeout=CASE_TIMEOUT))
+        extreme = bool(rng.random() < 0.12)
+        if extreme:
+            # very small x at very large Q2 (grid reaching down to 1e-7): where the massive library overflows (F-17) the documented
+            # clean-up must still hand back finite numbers
+            x, q2 = cards.logu(rng, 2e-7, 1e-5), cards.logu(rng, 1e4, 1e6)
+        out.append(dict(id=f"c16-{n}", mode="lattice", kind=kind, heavy=heavy, theory=th, obs=ob, point=dict(x=x, Q2=q2, y=float(rng.uniform(0.05, 0.95))), extreme=extreme, timeout=CASE_TIMEOUT))
     # domain clause
     nd = 66 if tier == "quick" else 660
     for n in range(nd):
@@ -91,7 +96,7 @@ def run_case(case):
     name = f"{case['kind']}_{case['heavy']}"
     isxs = case["kind"] in cards.XSS
     p = dict(case["point"])
-    xg = cards.grid(5, 4, x_min=1e-3)
+    xg = cards.grid(5, 4, x_min=1e-3) if not case.get("extreme") else cards.grid(7, 4, x_min=1e-7)
     if case["mode"] == "domain":
         for k, v in case["bad"].items():
             p[k] = xg[0] * 0.5 if v == "below" else v
@@ -99,6 +104,8 @@ def run_case(case):
     ob = cards.observables({name: [kin]}, xgrid=xg, deg=2, **case["obs"])
     cell = f"{case['kind']}|{case['heavy']}|{case['obs']['prDIS']}|{th['FNS']}|pto{th['PTODIS']}"
     classes = {case["obs"]["prDIS"], th["FNS"]}
+    if case.get("extreme"):
+        classes.add("extreme-kinematics")
     viol, nontrivial = [], []
     outcome, text = None, ""
     try:
